@@ -316,7 +316,7 @@ def group_of(name):
     if name not in dict(coretrace.HELPERS) and name not in BIG and name not in CURV3:
         return "Keys"
     if name in BIG:
-        return "Big"
+        return "Big_" + name
     if name in CURV3:
         return "Curv"
     if name.startswith(("s_covd", "st_covd", "s_div", "Lie_beta", "s_to_st", "trace", "magnitude", "vector_inner",
